@@ -5,6 +5,7 @@ import DaskModel.Model.Store
 import DaskModel.Model.Take
 import DaskModel.Model.ArrOverlap
 import DaskModel.Model.SliceND
+import DaskModel.Model.SetItemND
 open Dask
 open Dask.Slice1D
 open Dask.SetItem
@@ -12,6 +13,7 @@ open Dask.Store
 open Dask.Take
 open Dask.ArrOverlap
 open Dask.SliceND
+open Dask.SetItemND
 
 /-! Line-protocol handlers of group `slicing` (C20, C21, C26, C29). -/
 
@@ -318,7 +320,44 @@ def hSliceND : Handler := handler fun args =>
                 .list (bd.map SExp.ofInts)])
   | _ => none
 
+def toAIdx? (e : SExp) : Option AIdx :=
+  match e with
+  | .list [.sym "sl", a, b, c] => do pure (AIdx.sl (← a.toInt?) (← b.toInt?) (← c.toInt?))
+  | .list [.sym "int", i] => do pure (AIdx.int (← i.toInt?))
+  | .list [.sym "arr", l] => do pure (AIdx.arr (← l.toInts?))
+  | _ => none
+
+def ofBIx : BIx → SExp
+  | .sl a b c => .list [.sym "sl", .int a, .int b, .int c]
+  | .int i => .list [.sym "int", .int i]
+  | .arr l => .list [.sym "arr", SExp.ofInts l]
+
+def ofVIx : VIx → SExp
+  | .sl s => .list [.sym "sl", ofSlice s]
+  | .arr l => .list [.sym "arr", SExp.ofNats l]
+  | .ellipsis => .list [.sym "ellipsis"]
+
+/-- `(setitemplan ((lengths…)…) (idx…) (implied…) (reverse…) (vshape…))` ↦ `(raised)` |
+    `(ok (none | ((bix…) (vix…))) …)`: the plan of `setitem_array`, block by block in product order -/
+def hSetItemPlan : Handler := handler fun args =>
+  match args with
+  | [cs, idx, implied, reverse, vshape] => do
+    let cs ← cs.toNatss?
+    let idx ← (← idx.toList?).mapM toAIdx?
+    let implied ← implied.toInts?
+    let reverse ← reverse.toNats?
+    let vshape ← vshape.toNats?
+    match planND cs idx implied reverse vshape with
+    | .raised => pure raised
+    | .ok blocks =>
+      pure (ok [.list (blocks.map fun b =>
+        match b with
+        | none => .sym "none"
+        | some (bis, vis) => .list [.list (bis.map ofBIx), .list (vis.map ofVIx)])])
+  | _ => none
+
 def table : List (String × Handler) := [
+  ("setitemplan", hSetItemPlan),
   ("slicend", hSliceND),
   ("overlapchunks", hOverlapChunks), ("trimchunks", hTrimChunks), ("ensuremin", hEnsureMin),
   ("overlapblocks", hOverlapBlocks), ("trimblocks", hTrimBlocks), ("padpositions", hPadPositions),
